@@ -135,6 +135,26 @@ def eval_case(case):
                     [{'relation': 'summary_read_changes_code',
                       'detail': 'reading n, k, d changed the logical operators / stabilizer matrix '
                                 'the object hands out'}]
+    if not fails and info and case.get('deformation') is not None:
+        # ... and the object a user gets who looked at the undeformed code
+        # (its summary, its logical operators) before deforming it
+        code3 = domain.build_code(cls, size)
+        try:
+            _ = (code3.n, code3.k, code3.d, code3.logicals_x, code3.logicals_z, code3.stabilizer_matrix)
+        except Exception:        # noqa: reported for the undeformed case of this size
+            code3 = None
+        if code3 is not None:
+            code3.deform(case['deformation'], **(case.get('kwargs') or {}))
+            same = all(np.array_equal(np.asarray(getattr(code, a)), np.asarray(getattr(code3, a)))
+                       for a in ('logicals_x', 'logicals_z')) and \
+                np.array_equal(gf2.to_dense(code.stabilizer_matrix), gf2.to_dense(code3.stabilizer_matrix))
+            if not same:
+                more, _ = code_relations(code3, cls)
+                fails = [dict(f, detail='deformed after its undeformed operators were read: ' + f['detail'])
+                         for f in more] or \
+                    [{'relation': 'deform_after_read_changes_code',
+                      'detail': 'a code deformed after its undeformed operators were read hands out '
+                                'other operators than one deformed straight away'}]
     for f in fails:
         f['sig'] = dict(sig)
         f['detail'] = f'{cls}{size} {case.get("deformation")} ' \
